@@ -484,7 +484,27 @@ def rule_h(ctx: Context, R: Reporter, gc: ClassInfo):
             if nm.split(".")[-1] in ("pdf", "logpdf") and "multivariate_normal" in nm:
                 n_calls += 1
                 cov = call_arg(c, 2, "cov")
-                ok = cov is not None and any(isinstance(x, ast.Attribute) and x.attr == "reg_covar" for x in ast.walk(cov))
+
+                def sees_reg(e, fi_, depth=0) -> bool:
+                    """reg_covar occurs in the expression, in the local definitions it is built from, or in a helper of the class it calls"""
+                    if e is None or depth > 3:
+                        return False
+                    if any(isinstance(x, ast.Attribute) and x.attr == "reg_covar" for x in ast.walk(e)):
+                        return True
+                    for x in ast.walk(e):
+                        if isinstance(x, ast.Call):
+                            for t in ctx.res.call_targets(fi_, x):
+                                if isinstance(t, FuncInfo) and any(isinstance(r_, ast.Return) and sees_reg(r_.value, t, depth + 1) for r_ in ast.walk(t.node)):
+                                    return True
+                        elif isinstance(x, ast.Name) and depth < 2:
+                            fl_ = flow_of(fi_.node)
+                            at_ = fl_.node_containing(e) if hasattr(fl_, "node_containing") else None
+                            for d_ in (fl_.reaching(at_, x.id) if at_ is not None else []):
+                                if d_.value is not None and d_.kind == "assign" and sees_reg(d_.value, fi_, depth + 1):
+                                    return True
+                    return False
+
+                ok = sees_reg(cov, m)
                 R.check("C15.h", "the covariance handed to the density carries the reg_covar jitter", ok, m, c,
                         msg=f"{m.short}: `{unparse(c)[:70]}` evaluates a component density on the bare covariance (no reg_covar): singular for a degenerate component",
                         key=f"density-unregularised:{m.short}")
